@@ -839,3 +839,56 @@ impl Sys {
         }
     }
 }
+
+/// What the server's bootstrap does with restored allocation queues, on the real
+/// `AutoAllocState`: start the id counter at `queue_id_counter`, re-add every restored queue
+/// under its old id, then create one new queue. Returns the id the new queue gets.
+/// (Used by the journal engine for C11: that id must not be one the journal mentions.)
+pub fn bootstrap_next_queue_id(queue_id_counter: u32, restored_queue_ids: &[u32]) -> u32 {
+    let batch = Rc::new(RefCell::new(Batch {
+        next_id: 0,
+        max_allocs: 0,
+        status_errors_used: 0,
+        max_status_errors: 0,
+        statuses: vec![],
+        whole_error: false,
+        submit_fail_kinds: 0,
+        remove_fail: false,
+        errors_only: false,
+        script: vec![],
+        taken: vec![],
+        arities: vec![],
+        script_error: false,
+        calls: vec![],
+    }));
+    let make_queue = |id: u32| {
+        let params = QueueParameters {
+            manager: ManagerType::Slurm,
+            max_workers_per_alloc: 1,
+            backlog: 1,
+            timelimit: Duration::from_secs(3600),
+            name: None,
+            max_worker_count: None,
+            min_utilization: 0.0,
+            additional_args: vec![],
+            worker_start_cmd: None,
+            worker_stop_cmd: None,
+            worker_wrap_cmd: None,
+            cli_resource_descriptor: None,
+            worker_args: vec![],
+            idle_timeout: None,
+        };
+        AllocationQueue::new(
+            QueueInfo::new(params),
+            None,
+            Box::new(MockHandler { queue: id, batch: batch.clone() }),
+            RateLimiter::new(vec![Duration::from_secs(1)], 3, 3),
+            None,
+        )
+    };
+    let mut state = AutoAllocState::new(queue_id_counter);
+    for id in restored_queue_ids {
+        state.add_queue(make_queue(*id), Some(*id));
+    }
+    state.add_queue(make_queue(0), None)
+}
